@@ -701,8 +701,13 @@ func checkSelectorPrefix(w *World, r *Result) {
 	})
 	hasEquality := false
 	ast.Inspect(ig.Decl.Body, func(x ast.Node) bool {
-		if be, ok := x.(*ast.BinaryExpr); ok && be.Op == token.EQL && strings.Contains(es(be), "path") {
-			hasEquality = true
+		// an equality test on the path being examined (a parameter of ignorePath)
+		if be, ok := x.(*ast.BinaryExpr); ok && be.Op == token.EQL {
+			for _, side := range []ast.Expr{be.X, be.Y} {
+				if id := identOf(side); id != nil && paramIndex(ig, objOf(ig.Pkg.TypesInfo, id)) >= 0 {
+					hasEquality = true
+				}
+			}
 		}
 		return true
 	})
